@@ -395,3 +395,33 @@ def hash_trace_stage(res, prop, n, shards=NCPU, timeout=900):
     any_p = next(iter(byid.values()))
     res.samples.append({"program": any_p["steps"][:6], "opts": any_p["opts"], "recorded": any_p["rec"][min(5, len(any_p["rec"]) - 1)]})
     return res
+
+
+# ------------------------------------------------------------------ stand-alone mechanism models (spec/mech) and Apalache lemmas
+def mech_stage(res, module, lemmas, timeout=1200):
+    """TLC on a level-M model: the algorithm the code uses, checked against its level-A meaning (a design-level check)."""
+    cfg = os.path.join(SPEC, "mech", f"{module}.{TIER}.cfg")
+    t = Timer()
+    r = tlc.run_tlc(os.path.join(SPEC, "mech", module + ".tla"), cfg, timeout=timeout)
+    tlc.require_clean(r, f"mechanism model {module} ({TIER})")
+    res.states += r["distinct"]
+    res.transitions += r["states"]
+    res.lemmas.append({"module": "spec/mech/" + module, "lemmas": lemmas, "distinct_states": r["distinct"], "result": "hold", "wall_s": t.s()})
+
+
+def apalache_stage(res, module, inv, timeout=300):
+    """Unbounded lemma by Apalache (SMT).  Failure to finish is reported in the evidence, never as a violation; a counterexample is a machinery failure."""
+    import subprocess, shutil
+    out = os.path.join(scratch(), "apa." + module)
+    t = Timer()
+    try:
+        p = subprocess.run(["timeout", str(timeout), "apalache-mc", "check", "--init=Init", f"--inv={inv}", "--length=0", f"--out-dir={out}",
+                            os.path.join(SPEC, "mech", module + ".tla")], capture_output=True, text=True, cwd=scratch())
+        txt = p.stdout + p.stderr
+        result = "proved (no error)" if "The outcome is: NoError" in txt else "counterexample" if "The outcome is: Error" in txt else "did not finish"
+    except FileNotFoundError:
+        result = "apalache not available"
+    shutil.rmtree(out, ignore_errors=True)
+    res.lemmas.append({"module": "spec/mech/" + module, "lemmas": [inv], "engine": "apalache 0.58 (unbounded Int)", "result": result, "wall_s": t.s()})
+    if result == "counterexample":
+        raise tlc.TLCError(f"Apalache found a counterexample to {inv} in {module}: the mechanism model or the code changed")
